@@ -152,3 +152,44 @@ Definition api_handler (f : flavour) (a : api_in) (req : bytes) : api_outcome :=
     end
   | R404 _ => ARouter
   end.
+
+(* ---- several middlewares / API handlers built in ONE process, requested afterwards ----
+   A member is a UI middleware or an API handler together with the page it serves when it is the only thing ever
+   built (an oracle: the harness builds it alone and fetches the page at once). Building has no memory: whatever else is
+   built before or after, side by side or as the next handler, a member answers as if alone. *)
+Inductive member :=
+| MUI (f : flavour) (o : ui_opts) (page : bytes)
+| MAPI (f : flavour) (a : api_in) (page : bytes).
+
+Inductive houtcome :=
+| HServe (ct : ctype) (body : bytes)               (* 200, this content type, this body *)
+| HSpec                                            (* API handler: the spec document *)
+| HNext                                            (* the handler behind the (last) middleware got the very same request *)
+| H404 (ct : ctype)
+| HRouter.                                         (* API handler: handed to the router *)
+
+Definition member_path (m : member) : bytes :=
+  match m with MUI f o _ => ui_path f o | MAPI f a _ => ui_path f (api_ui_opts a) end.
+Definition member_page (m : member) : bytes := match m with MUI _ _ p => p | MAPI _ _ p => p end.
+Definition is_ui_member (m : member) : bool := match m with MUI _ _ _ => true | MAPI _ _ _ => false end.
+
+(* a member requested on its own (side by side with the others) *)
+Definition member_handler (m : member) (has_next : bool) (req : bytes) : houtcome :=
+  match m with
+  | MUI f o page =>
+    match serve_ui f o page has_next req with Serve ct b => HServe ct b | Next => HNext | R404 ct => H404 ct end
+  | MAPI f a page =>
+    match api_handler f a req with ASpec => HSpec | AUI => HServe CTHtml page | ARouter => HRouter end
+  end.
+
+(* UI middlewares chained: each one is the next handler of the one before, e.g. SwaggerUI(o, SwaggerUIOAuth2Callback(o, next));
+   has_next: is there a handler behind the last one *)
+Fixpoint chain_handler (ms : list member) (has_next : bool) (req : bytes) : houtcome :=
+  match ms with
+  | [] => if has_next then HNext else H404 CTPlain
+  | m :: r =>
+    match r with
+    | [] => member_handler m has_next req
+    | _ :: _ => match member_handler m true req with HNext => chain_handler r has_next req | x => x end
+    end
+  end.
